@@ -12,6 +12,9 @@ def adapted_contracts(ctx, repo, prop):
     from contracts import c08_init as N
 
     N.verify_all(ctx, repo, prop)
+    from contracts import c08_wiring as W
+
+    W.verify_all(ctx, repo, prop)
 
 
 def smc_contracts(ctx, repo, prop):
